@@ -38,7 +38,7 @@ def repo_state():
         return {"error": repr(e)}
 
 
-def run_replay(path, timeout=300):
+def run_replay(path, timeout=150):
     """replay a witness against the UNINSTRUMENTED modules in a clean process"""
     env = dict(os.environ)
     env["PYTHONPATH"] = REPO + os.pathsep + ROOT
